@@ -1,7 +1,9 @@
 package main
 
 import (
+	"fmt"
 	"go/token"
+	"go/types"
 
 	"golang.org/x/tools/go/ssa"
 )
@@ -31,10 +33,54 @@ func (vc *VC) closeChan(st *State, ch Term, guard string, pos token.Pos, label s
 	vc.havocAll(st, "close of a channel (over-approximated)")
 }
 
+// Range over a map: "each key exactly once, in an unspecified order".  A ghost set of visited
+// keys belongs to the Range instruction; Next yields an unvisited key of the map and its value,
+// or reports exhaustion exactly when every key has been visited.
+func (vc *VC) rangeVar(x *ssa.Range) (string, string, *types.Map) {
+	mt, ok := types.Unalias(x.X.Type()).Underlying().(*types.Map)
+	if !ok {
+		return "", "", nil
+	}
+	ks := vc.ss().sortOf(mt.Key())
+	return "rng_" + x.Name(), "(Array " + ks + " Bool)", mt
+}
+
 func (vc *VC) rangeStart(st *State, x *ssa.Range, guard string) {
-	vc.unsupported(st, x, guard)
+	name, sortName, mt := vc.rangeVar(x)
+	if mt == nil {
+		vc.unsupported(st, x, guard)
+		return
+	}
+	ks := vc.ss().sortOf(mt.Key())
+	vc.set(st, name, sortName, fmt.Sprintf("((as const (Array %s Bool)) false)", ks))
+	vc.vals[x] = vc.val(x.X)
 }
 
 func (vc *VC) rangeNext(st *State, x *ssa.Next, guard string) {
-	vc.unsupported(st, x, guard)
+	rg, ok := x.Iter.(*ssa.Range)
+	if !ok || x.IsString {
+		vc.unsupported(st, x, guard)
+		return
+	}
+	name, sortName, mt := vc.rangeVar(rg)
+	if mt == nil {
+		vc.unsupported(st, x, guard)
+		return
+	}
+	m := vc.vals[rg]
+	hn, hs, vn, vs := vc.mapVars(mt)
+	ks := vc.ss().sortOf(mt.Key())
+	vsort := vc.ss().sortOf(mt.Elem())
+	vis := vc.get(st, name, sortName)
+	has := sx("select", vc.get(st, hn, hs), m.S)
+	okc := vc.fresh("next_ok", "Bool")
+	k := vc.fresh("next_k", ks)
+	v := vc.fresh("next_v", vsort)
+	vc.assume(vc.ss().typeInv(mt.Key(), k, 0))
+	vc.assume(vc.ss().typeInv(mt.Elem(), v, 0))
+	vc.assume(implies(okc, and(not(sx("=", m.S, "0")), sx("select", has, k), not(sx("select", vis, k)),
+		sx("=", v, sx("select", sx("select", vc.get(st, vn, vs), m.S), k)))))
+	vc.assume(implies(not(okc), fmt.Sprintf("(forall ((q %s)) (! (=> (and (not (= %s 0)) (select %s q)) (select %s q)) :pattern ((select %s q))))", ks, m.S, has, vis, has)))
+	vc.set(st, name, sortName, sx("ite", okc, sx("store", vis, k, "true"), vis))
+	vc.tuples[x] = []Term{{S: okc, Sort: "Bool", T: types.Typ[types.Bool]}, {S: k, Sort: ks, T: mt.Key()}, {S: v, Sort: vsort, T: mt.Elem()}}
 }
